@@ -1092,6 +1092,17 @@ func (e *Ex) runScenario() core.Result {
 						alive = false
 						break
 					}
+					if res.StatusCode == 299 && res.Header.Get("X-Verif-Hijack") == "1" {
+						hijacked = true
+						cc.c.SetReadDeadline(time.Now().Add(ioTimeout))
+						extra, rerr := io.ReadAll(cc.br)
+						w.mu.Lock()
+						w.rec(rid).extraAfterHijack = len(extra)
+						w.rec(rid).closedAfterHijack = !isTimeout(rerr)
+						w.mu.Unlock()
+						alive = false
+						break
+					}
 					e.absorb(rid, rit, res, body, berr)
 					if berr != nil {
 						alive = false
